@@ -1,5 +1,18 @@
-(* Executable statement of C10 on a trace of the IMPLEMENTATION, using only the call and return
+(* Executable statements of C10 on a trace of the IMPLEMENTATION, using only the call and return
    markers and the returned values (never the lock / atomic events, never the model).
+
+   [spec_c10_strict]  = the property text read literally: there is ONE order of all atomic actions
+     (get-or-create, update through the handle - the two calls that make up
+     with_label_values(k).inc_by(d), in program order inside the harness call's window - remove,
+     reset, and collect as ONE action returning keys AND values) consistent with program order and
+     real time that a sequential map from label values to children reproduces.
+   [spec_c10_relaxed] = the same with a collection split into an atomic key snapshot and the end of its
+     per-child value reads (each shown value lies between the child's value at the two points).
+   [known_c10]        = class predicate of the known finding C10-collect-values-not-snapshot: strict
+     fails, relaxed holds, and some collection overlaps updates to two different label-value tuples.
+   Both searches are budgeted depth-first searches; an exhausted budget answers Unknown, which counts
+   as "pass" (never a false alarm) and is reported by [strict_unknown].
+   [Proofs/VecConcStrict.v] proves that a NotFound answer is exact (no interleaving was skipped).
 
    Scenario convention (checked, see [incs_ok]): every  with_label_values(k).inc_by(d)  call of a
    scenario uses its own power of two d, so a collected value decodes into the set of updates the
@@ -160,14 +173,15 @@ Definition pointwise : bool :=
 End S.
 
 (* ------------------------------------------------------------------ search for a linearisation *)
-Inductive akind := KGet | KUpd | KRem | KReset | KSnap | KEnd.
+Inductive akind := KGet | KUpd | KRem | KReset | KSnap | KEnd | KColl.
 Record act := { a_kind : akind; a_c : crec }.
-Definition acts_of (nl : nat) (c : crec) : list act :=
+(* strict: a collection is one action; relaxed: key snapshot, then end of the value reads *)
+Definition acts_of (strict : bool) (nl : nat) (c : crec) : list act :=
   match c_call c with
   | CWithInc k _ => if Nat.eqb (length k) nl then [{| a_kind := KGet; a_c := c |}; {| a_kind := KUpd; a_c := c |}] else []
   | CRemove k => if Nat.eqb (length k) nl then [{| a_kind := KRem; a_c := c |}] else []
   | CVReset => [{| a_kind := KReset; a_c := c |}]
-  | CVCollect => [{| a_kind := KSnap; a_c := c |}; {| a_kind := KEnd; a_c := c |}]
+  | CVCollect => if strict then [{| a_kind := KColl; a_c := c |}] else [{| a_kind := KSnap; a_c := c |}; {| a_kind := KEnd; a_c := c |}]
   | _ => []
   end.
 
@@ -205,6 +219,11 @@ Definition apply_act (s : sst) (a : act) : option sst :=
       | _, _ => None
       end
   | KReset, _, _ => Some {| m_map := []; m_val := m_val s; m_next := m_next s; m_handle := m_handle s; m_snap := m_snap s |}
+  | KColl, _, RColl l =>
+      (* ONE atomic collection: exactly the present keys, each once, each with exactly its child's current value *)
+      if Nat.eqb (length l) (length (m_map s)) && nodup_keys (map fst l)
+         && forallb (fun kv => match mget (fst kv) (m_map s) with Some ch => vget ch (m_val s) =? snd kv | None => false end) l
+      then Some s else None
   | KSnap, _, RColl l =>
       (* exactly the present keys, each once; every update ordered before is visible *)
       if Nat.eqb (length l) (length (m_map s)) && nodup_keys (map fst l)
@@ -220,7 +239,8 @@ Definition apply_act (s : sst) (a : act) : option sst :=
   | _, _, _ => None
   end.
 
-(* thread-indexed remaining actions *)
+(* thread-indexed remaining actions; an action may go next only if no other thread still owes an action of a call that
+   returned before this action's call was invoked (real time); program order = the order of each thread's list *)
 Fixpoint heads_ok (a : act) (rem : list (list act)) : bool :=
   match rem with
   | [] => true
@@ -235,54 +255,103 @@ Fixpoint pop (i : nat) (rem : list (list act)) : option (act * list (list act)) 
   end.
 Definition all_done (rem : list (list act)) : bool := forallb is_nil rem.
 
+(* what the search looks for *)
+Inductive lin_exists : sst -> list (list act) -> Prop :=
+| lin_done s rem : all_done rem = true -> lin_exists s rem
+| lin_step s rem i a rem' s' :
+    pop i rem = Some (a, rem') -> heads_ok a rem = true -> apply_act s a = Some s' -> lin_exists s' rem' -> lin_exists s rem.
+
 Inductive sres := Found | NotFound | Unknown.
+(* try the candidates in turn; [k] explores the rest after one action was taken; the budget counts visited nodes *)
+Fixpoint try_cands (k : sst -> list (list act) -> nat -> sres * nat) (s : sst) (rem : list (list act))
+                   (cands : list nat) (bud : nat) : sres * nat :=
+  match cands with
+  | [] => (NotFound, bud)
+  | i :: cs =>
+      match bud with
+      | O => (Unknown, O)
+      | S b =>
+          match pop i rem with
+          | Some (a, rem') =>
+              if heads_ok a rem then
+                match apply_act s a with
+                | Some s' =>
+                    match k s' rem' b with
+                    | (Found, b') => (Found, b')
+                    | (Unknown, b') => (Unknown, b')
+                    | (NotFound, b') => try_cands k s rem cs b'
+                    end
+                | None => try_cands k s rem cs b
+                end
+              else try_cands k s rem cs b
+          | None => try_cands k s rem cs b
+          end
+      end
+  end.
 Fixpoint dfs (fuel : nat) (s : sst) (rem : list (list act)) (bud : nat) : sres * nat :=
   match fuel with
   | O => (Unknown, bud)
-  | S f =>
-      if all_done rem then (Found, bud) else
-      (fix try (cands : list nat) (bud : nat) : sres * nat :=
-         match cands with
-         | [] => (NotFound, bud)
-         | i :: cs =>
-             match bud with
-             | O => (Unknown, O)
-             | S b =>
-                 match pop i rem with
-                 | Some (a, rem') =>
-                     if heads_ok a rem then
-                       match apply_act s a with
-                       | Some s' =>
-                           match dfs f s' rem' b with
-                           | (Found, b') => (Found, b')
-                           | (Unknown, b') => (Unknown, b')
-                           | (NotFound, b') => try cs b'
-                           end
-                       | None => try cs b
-                       end
-                     else try cs b
-                 | None => try cs b
-                 end
-             end
-         end) (seq 0 (length rem)) bud
+  | S f => if all_done rem then (Found, bud) else try_cands (dfs f) s rem (seq 0 (length rem)) bud
   end.
 
 Fixpoint insert_ci (c : crec) (l : list crec) : list crec :=
   match l with [] => [c] | x :: r => if c_ci c <? c_ci x then c :: l else x :: insert_ci c r end.
-Definition thread_acts (nl : nat) (cs : list crec) (t : nat) : list act :=
-  flat_map (acts_of nl) (fold_right insert_ci [] (filter (fun c => Nat.eqb (c_t c) t) cs)).
+Definition thread_acts (strict : bool) (nl : nat) (cs : list crec) (t : nat) : list act :=
+  flat_map (acts_of strict nl) (fold_right insert_ci [] (filter (fun c => Nat.eqb (c_t c) t) cs)).
 Definition max_tid (cs : list crec) : nat := fold_left (fun m c => Nat.max m (c_t c)) cs O.
 
-Definition search_budget : nat := 30000.
-Definition lin_search (nl : nat) (cs : list crec) : sres :=
-  let rem := map (thread_acts nl cs) (seq 0 (S (max_tid cs))) in
+Definition search_budget : nat := 300 * 100.
+Definition sst0 : sst := {| m_map := []; m_val := []; m_next := 1; m_handle := []; m_snap := [] |}.
+Definition all_acts (strict : bool) (nl : nat) (cs : list crec) : list (list act) :=
+  map (thread_acts strict nl cs) (seq 0 (S (max_tid cs))).
+Definition lin_search (strict : bool) (nl : nat) (cs : list crec) : sres :=
+  let rem := all_acts strict nl cs in
   let n := fold_left (fun a l => (a + length l)%nat) rem O in
-  fst (dfs (S n) {| m_map := []; m_val := []; m_next := 1; m_handle := []; m_snap := [] |} rem search_budget).
+  fst (dfs (S n) sst0 rem search_budget).
+(* the literal statement, as a proposition *)
+Definition strict_linearisation_exists (nl : nat) (cs : list crec) : Prop := lin_exists sst0 (all_acts true nl cs).
 
-Definition spec_c10 (nl : nat) (es : list event) : bool :=
-  let (cs, wf) := extract es in
+(* ------------------------------------------------------------------ the specs *)
+(* everything except the search; if the increments are not distinct powers of two the values cannot be decoded and
+   only the value-independent parts are checked *)
+Definition base_ok (nl : nat) (cs : list crec) (wf : bool) : bool :=
   wf && forallb (kind_ok nl) cs
-  && (if incs_ok cs
-      then pointwise nl cs && match lin_search nl cs with NotFound => false | _ => true end
-      else (* values cannot be decoded: only the value-independent parts *)
-        forallb (fun c => match c_ret c with RColl l => nodup_keys (map fst l) | _ => true end) cs).
+  && (if incs_ok cs then pointwise nl cs
+      else forallb (fun c => match c_ret c with RColl l => nodup_keys (map fst l) | _ => true end) cs).
+Definition search_ok (strict : bool) (nl : nat) (cs : list crec) : bool :=
+  if incs_ok cs then match lin_search strict nl cs with NotFound => false | _ => true end else true.
+
+Definition spec_c10_relaxed (nl : nat) (es : list event) : bool :=
+  let (cs, wf) := extract es in base_ok nl cs wf && search_ok false nl cs.
+Definition spec_c10_strict (nl : nat) (es : list event) : bool :=
+  let (cs, wf) := extract es in base_ok nl cs wf && search_ok true nl cs.
+(* the strict search ran out of budget: counted as pass *)
+Definition strict_unknown (nl : nat) (es : list event) : bool :=
+  let (cs, wf) := extract es in
+  base_ok nl cs wf && incs_ok cs && match lin_search true nl cs with Unknown => true | _ => false end.
+
+(* some collection's window overlaps two updates to different label-value tuples *)
+Definition is_upd (nl : nat) (c : crec) : bool := match c_call c with CWithInc k _ => Nat.eqb (length k) nl | _ => false end.
+Definition upd_key (c : crec) : skey := match c_call c with CWithInc k _ => k | _ => [] end.
+Definition overlaps (a b : crec) : bool := (c_ci a <? c_ri b) && (c_ci b <? c_ri a).
+Definition collect_overlaps_two (nl : nat) (cs : list crec) : bool :=
+  existsb (fun C => match c_call C with
+                    | CVCollect =>
+                        existsb (fun w1 => is_upd nl w1 && overlaps C w1 &&
+                          existsb (fun w2 => is_upd nl w2 && overlaps C w2 && negb (skey_eqb (upd_key w1) (upd_key w2))) cs) cs
+                    | _ => false end) cs.
+Definition known_c10 (nl : nat) (es : list event) : bool :=
+  negb (spec_c10_strict nl es) && spec_c10_relaxed nl es && collect_overlaps_two nl (fst (extract es)).
+
+(* one pass for the check driver: 0 = strict holds, 3 = strict search out of budget (pass), 1 = strict fails and the case is in
+   the known class, 2 = strict fails otherwise *)
+Definition classify (nl : nat) (es : list event) : N :=
+  let (cs, wf) := extract es in
+  if negb (base_ok nl cs wf) then 2
+  else if negb (incs_ok cs) then 0
+  else match lin_search true nl cs with
+       | Found => 0
+       | Unknown => 3
+       | NotFound =>
+           if match lin_search false nl cs with NotFound => false | _ => true end && collect_overlaps_two nl cs then 1 else 2
+       end.
